@@ -18,6 +18,7 @@ import (
 	"github.com/scrapli/scrapligo/driver/network"
 	"github.com/scrapli/scrapligo/driver/opoptions"
 	"github.com/scrapli/scrapligo/driver/options"
+	"github.com/scrapli/scrapligo/response"
 	"github.com/scrapli/scrapligo/transport"
 	"github.com/scrapli/scrapligo/util"
 
@@ -27,7 +28,9 @@ import (
 
 // Case is one stalled operation.
 type Case struct {
-	Op          string   `json:"op"`
+	Op string `json:"op"`
+	// NCKind (op nc-lock): which RPC method is called ("" = lock)
+	NCKind      string   `json:"nc_kind,omitempty"`
 	Cmd         string   `json:"cmd"`
 	Out         []string `json:"out"`
 	NextCmd     string   `json:"next_cmd"`
@@ -43,6 +46,9 @@ type Case struct {
 	// read-until loop than the default fuzzy one)
 	Exact bool `json:"exact,omitempty"`
 }
+
+// every exported RPC method of the NETCONF driver that takes no per-operation timeout itself
+var ncKinds = []string{"lock", "unlock", "commit", "discard", "copy-config", "delete-config", "edit-config", "validate", "get-config", "rpc", "subscribe"}
 
 var ops = []string{"getprompt", "cmd", "cmds", "interactive", "acquire", "acquire-auth", "ncmd", "nconfigs", "nc-open", "nc-get", "nc-lock", "login-telnet", "login-ssh"}
 
@@ -60,6 +66,7 @@ func gen(t *rapid.T) Case {
 		Cmd:         sim.GenCommand(t),
 		NextCmd:     "next " + sim.GenCommand(t) + " |",
 		TimeoutMode: rapid.SampledFrom([]string{"conn", "op-smaller", "op-larger", "op-zero", "conn", "op-smaller"}).Draw(t, "timeoutMode"),
+		NCKind:      rapid.SampledFrom(ncKinds).Draw(t, "ncKind"),
 		KPermille:   rapid.IntRange(0, 999).Draw(t, "kPermille"),
 		KAbs:        -1,
 		Plan:        sim.GenCutPlan(t),
@@ -109,6 +116,8 @@ type scenario struct {
 }
 
 const host = "r7"
+
+const subReply = `<rpc-reply xmlns="%s" message-id="%s"><subscription-result xmlns="urn:ietf:params:xml:ns:yang:ietf-event-notifications" xmlns:notif-bis="urn:ietf:params:xml:ns:yang:ietf-event-notifications">notif-bis:ok</subscription-result><subscription-id xmlns="urn:ietf:params:xml:ns:yang:ietf-event-notifications">7</subscription-id></rpc-reply>`
 
 func cliDevice(c *Case) (*sim.CLI, *int) {
 	mode := 0
@@ -331,6 +340,10 @@ func build(c *Case) (*scenario, error) {
 			Echo:    c.Echo,
 		}
 		srv.OnRequest = func(r sim.NCRequest) []sim.NCAction {
+			if strings.Contains(r.XML, "establish-subscription") {
+				return []sim.NCAction{{Payload: fmt.Sprintf(subReply, sim.BaseNS, r.MessageID), TrailLF: true}}
+			}
+
 			return []sim.NCAction{{Payload: fmt.Sprintf(`<rpc-reply xmlns="%s" message-id="%s"><data>%s</data></rpc-reply>`, sim.BaseNS, r.MessageID, "v"+r.MessageID), TrailLF: true}}
 		}
 		s.pipe = sim.NewPipe(srv)
@@ -393,7 +406,36 @@ func build(c *Case) (*scenario, error) {
 		case "nc-lock":
 			s.prepare = d.Open
 			s.op = func([]util.Option) (string, error) {
-				r, e := d.Lock("candidate")
+				var (
+					r *response.NetconfResponse
+					e error
+				)
+
+				switch c.NCKind {
+				case "unlock":
+					r, e = d.Unlock("candidate")
+				case "commit":
+					r, e = d.Commit()
+				case "discard":
+					r, e = d.Discard()
+				case "copy-config":
+					r, e = d.CopyConfig("running", "startup")
+				case "delete-config":
+					r, e = d.DeleteConfig("startup")
+				case "edit-config":
+					r, e = d.EditConfig("candidate", "<config><a/></config>")
+				case "validate":
+					r, e = d.Validate("candidate")
+				case "get-config":
+					r, e = d.GetConfig("running")
+				case "rpc":
+					r, e = d.RPC(opoptions.WithFilter("<x/>"))
+				case "subscribe":
+					r, e = d.EstablishPeriodicSubscription("/a/b", 1000)
+				default:
+					r, e = d.Lock("candidate")
+				}
+
 				if e != nil {
 					return "", e
 				}
@@ -401,6 +443,10 @@ func build(c *Case) (*scenario, error) {
 				return r.Result, nil
 			}
 			s.wantResult = fmt.Sprintf(`<rpc-reply xmlns="%s" message-id="101"><data>v101</data></rpc-reply>`, sim.BaseNS)
+
+			if c.NCKind == "subscribe" {
+				s.wantResult = fmt.Sprintf(subReply, sim.BaseNS, "101")
+			}
 		}
 	case "login-telnet", "login-ssh":
 		state := "user"
@@ -607,7 +653,7 @@ func run(c Case) ev.Verdict {
 	}()
 
 	rd := time.Duration(c.ReadDelayNS)
-	slack := 4*rd + time.Millisecond // "a small slack": a few polls ...
+	slack := 4*rd + time.Millisecond   // "a small slack": a few polls ...
 	closeGrace := rd*(rd/1000) + 60*rd // a failed Open also closes the channel
 
 	v := ev.Verdict{OK: true, Classes: []string{"op=" + c.Op, "timeout=" + mode}}
